@@ -365,6 +365,25 @@ func GenAnnotFile(r *R, idx int, o AnnotOpts) *ir.File {
 			tops = append(tops, p)
 		}
 	}
+	if o.Safe {
+		// *_unwrap.pb.go imports protojson unconditionally: keep it used (known finding
+		// go:unwrap_unused_import) so that Safe files compile
+		hasUnwrap, usesPJ := false, false
+		for _, m := range b.f.Messages {
+			for _, fl := range m.Fields {
+				if fl.Ann.Unwrap {
+					hasUnwrap = true
+					if fl.Kind == "message" {
+						usesPJ = true
+					}
+				}
+			}
+		}
+		if hasUnwrap && !usesPJ {
+			lf := b.leaf()
+			b.add(&ir.Message{Name: b.msgName("KeepList"), Fields: []*ir.Field{{Name: "items", Number: 1, Kind: "message", TypeName: b.full(lf.Name), Card: "repeated", Ann: ir.Ann{Unwrap: true}}}})
+		}
+	}
 	if !o.NoService {
 		svc := &ir.Service{Name: o.MsgPrefix + "ApiService", BasePath: "/api"}
 		for i, t := range tops {
